@@ -173,10 +173,12 @@ def run(ctx):
     # args and non-empty kwargs, whatever reaches `func(self, *args, **kwargs)` was produced by TrackedValue.make (d.update({...}, key=[...]))
     from ..typestate import scenario_edges as _sce
     from ..q import reaching_defs as _rd, value_of_def as _vod
+    owner_names = {t.id for st_ in walk_no_nested(nf.node) if isinstance(st_, ast.Assign) and isinstance(st_.value, ast.Call) and isinstance(st_.value.func, ast.Attribute)
+                   and st_.value.func.attr == 'obj_ref' for t in st_.targets if isinstance(t, ast.Name)}
     def _given(text, node):
         t_ = text.replace(' ', '')
-        if t_ == 'objisNone': return False
-        if t_ == 'objisnotNone': return True
+        if any(t_ == o + 'isNone' for o in owner_names): return False
+        if any(t_ == o + 'isnotNone' for o in owner_names): return True
         if isinstance(node, ast.Name) and node.id in (getattr(nf.node.args.vararg, 'arg', None), getattr(nf.node.args.kwarg, 'arg', None)): return True
         return None
     eo_w = _sce(g, nf.node, _given, resolve=False)
